@@ -214,7 +214,11 @@ func (s *Session) verifyFunc(fn *ssa.Function, c *Contract) (vc *FnVC, err error
 			if len(fr.rets) > 1 {
 				name = fmt.Sprintf("post:%s@ret%d", clauseName(e, k), ri+1)
 			}
-			vc.oblige(name, r.reach, t, e.Text, fn.Pos())
+			info := e.Text
+			if len(fr.rets) > 1 {
+				info = fmt.Sprintf("%s  (at the return on line %d)", e.Text, s.pos(r.pos).Line)
+			}
+			vc.oblige(name, r.reach, t, info, fn.Pos())
 		}
 	}
 	if s.probeFalse {
